@@ -21,16 +21,16 @@ from .. import harness, memtransport, mutate, serializers, tlc, traces, vloop
 from ..common import Check
 
 LEVEL = "exploration"
-TRACE_CFG = "INIT TInit\nNEXT TNext\nCONSTANTS\n  MaxSend = 1000\n  MaxBad = 1000\nCONSTRAINT Constr\nPOSTCONDITION Post\nCHECK_DEADLOCK FALSE\n"
+TRACE_CFG = "INIT TInit\nNEXT TNext\nCONSTANTS\n  MaxSend = 1000\n  MaxBad = 1000\n  MaxErr = 1000\nCONSTRAINT Constr\nPOSTCONDITION Post\nCHECK_DEADLOCK FALSE\n"
 EVD = {"ev": "", "id": 0, "n": 0, "ok": False, "kind": ""}
 
 
 def _model(chk: Check) -> bool:
     with tempfile.TemporaryDirectory(prefix="vf_c05_") as d:
         cfg = os.path.join(d, "mc.cfg")
-        tlc.write_cfg(cfg, constants={"MaxSend": "3", "MaxBad": "2"}, invariants=["OneOutcomePerDatagram", "PacketsInOrder"], check_deadlock=False)
+        tlc.write_cfg(cfg, constants={"MaxSend": "3", "MaxBad": "2", "MaxErr": "2"}, invariants=["OneOutcomePerDatagram", "PacketsInOrder"], check_deadlock=False)
         res = tlc.run_tlc("Datagram", cfg)
-    chk.add_model("Datagram", res, {"MaxSend": 3, "MaxBad": 2}, "one outcome per datagram, order")
+    chk.add_model("Datagram", res, {"MaxSend": 3, "MaxBad": 2, "MaxErr": 2}, "one outcome per datagram, order")
     if not res.ok:
         chk.model_violation("Datagram", res)
         return False
@@ -244,6 +244,188 @@ def scenario_udp(entry: serializers.Entry, seed: int) -> dict[str, Any]:
     return {"events": traces.uniform(events, EVD), "meta": f"UDPNetworkClient {entry.name} seed={seed} packets={packets!r:.80}"}
 
 
+def _asyncio_protocol_of(client: Any) -> Any:
+    """The asyncio protocol object behind an AsyncUDPNetworkClient (to hand-feed error_received), or None."""
+    try:
+        endpoint = getattr(client, "_AsyncUDPNetworkClient__endpoint")
+        transport = getattr(endpoint, "_AsyncDatagramEndpoint__transport")
+        low = getattr(transport, "_AsyncioTransportDatagramSocketAdapter__endpoint")
+        return getattr(low, "_DatagramEndpoint__protocol")
+    except AttributeError:
+        return None
+
+
+async def _scenario_async_udp(entry: serializers.Entry, seed: int) -> dict[str, Any]:
+    """AsyncUDPNetworkClient over loopback on the real asyncio datagram transport; the harness is the peer (raw socket).  Datagrams
+    pile up while nobody receives, and socket errors (what an ICMP port-unreachable produces) are reported in between through the
+    protocol's error_received(), exactly as the event loop does it."""
+    from easynetwork.clients.async_udp import AsyncUDPNetworkClient
+    from easynetwork.exceptions import DatagramProtocolParseError
+    from easynetwork.lowlevel.api_async.backend._asyncio.backend import AsyncIOBackend
+
+    rng = random.Random(seed)
+    packets, plan = _script(entry, rng)
+    a, b = harness.loopback_udp_pair()
+    backend = AsyncIOBackend()
+    client = AsyncUDPNetworkClient(a, entry.datagram_protocol(), backend=backend)
+    await client.wait_connected()
+    proto = entry.datagram_protocol()
+    asyncio_protocol = _asyncio_protocol_of(client)
+    events: list[dict[str, Any]] = []
+    pending = 0  # datagrams + errors the client has not consumed yet
+
+    async def recv() -> None:
+        try:
+            with backend.timeout(5):
+                pkt = await client.recv_packet()
+        except DatagramProtocolParseError:
+            events.append({"ev": "recv", "kind": "err"})
+        except TimeoutError:
+            events.append({"ev": "recv", "kind": "nothing"})
+        except OSError:
+            events.append({"ev": "recv", "kind": "oserr"})
+        except Exception as exc:  # noqa: BLE001
+            events.append({"ev": "recv", "kind": "crash:" + type(exc).__name__})
+        else:
+            idx = next((i + 1 for i, p in enumerate(packets) if entry.eq(pkt, p)), 0)
+            events.append({"ev": "recv", "kind": "pkt", "id": idx, "ok": idx > 0})
+
+    try:
+        for kind, arg in plan:
+            if kind == "send":
+                await client.send_packet(packets[arg])
+                got = []
+                try:
+                    got.append(b.recv(70000))
+                    got.append(b.recv(70000))
+                except BlockingIOError:
+                    pass
+                events.append({"ev": "send", "id": arg + 1, "n": len(got), "ok": _check_send(entry, packets[arg], got)})
+                b.send(proto.make_datagram(packets[arg]))  # echo
+            else:
+                events.append({"ev": "inject"})
+                b.send(arg if arg else b"\x00")
+            pending += 1
+            for _ in range(3):
+                await asyncio.sleep(0)  # the event loop queues the datagram
+            if asyncio_protocol is not None and rng.random() < 0.35:
+                import errno
+
+                asyncio_protocol.error_received(ConnectionRefusedError(errno.ECONNREFUSED, "Connection refused"))
+                events.append({"ev": "sockerr"})
+                pending += 1
+            while pending and rng.random() < 0.5:
+                await recv()
+                pending -= 1
+        while pending:
+            await recv()
+            pending -= 1
+    finally:
+        await client.aclose()
+        b.close()
+    return {"events": traces.uniform(events, EVD), "meta": f"AsyncUDPNetworkClient {entry.name} seed={seed} packets={packets!r:.80}"}
+
+
+def scenario_big(family: str, flavour: str, size: int) -> dict[str, Any]:  # size = 0: the empty datagram
+    """A datagram of the maximum size the address family allows (65507 over IPv4, 65527 over IPv6) and its neighbours, through the
+    UDP clients over loopback, between two small ones."""
+    import socket
+
+    from easynetwork.clients.async_udp import AsyncUDPNetworkClient
+    from easynetwork.clients.udp import UDPNetworkClient
+    from easynetwork.exceptions import DatagramProtocolParseError
+    from easynetwork.protocol import DatagramProtocol
+    from easynetwork.serializers.line import StringLineSerializer
+
+    fam = socket.AF_INET6 if family == "ipv6" else socket.AF_INET
+    host = "::1" if family == "ipv6" else "127.0.0.1"
+    a = socket.socket(fam, socket.SOCK_DGRAM)
+    b = socket.socket(fam, socket.SOCK_DGRAM)
+    events: list[dict[str, Any]] = []
+    try:
+        for s_ in (a, b):
+            s_.bind((host, 0))
+            s_.setsockopt(socket.SOL_SOCKET, socket.SO_RCVBUF, 1 << 20)
+            s_.setsockopt(socket.SOL_SOCKET, socket.SO_SNDBUF, 1 << 20)
+        a.connect(b.getsockname())
+        b.connect(a.getsockname())
+        b.settimeout(2)
+        protocol = DatagramProtocol(StringLineSerializer())
+        packets = ["before", "B" * size, "after"]
+        b.setblocking(False)
+
+        def peer_recv() -> list[bytes]:
+            import time
+
+            got: list[bytes] = []
+            deadline = time.monotonic() + 1.0
+            while time.monotonic() < deadline and not got:
+                try:
+                    got.append(b.recv(70000))
+                except BlockingIOError:
+                    time.sleep(0.002)
+            try:
+                got.append(b.recv(70000))
+            except BlockingIOError:
+                pass
+            return got
+
+        def outcome(fn: Any) -> dict[str, Any]:
+            try:
+                pkt = fn()
+            except DatagramProtocolParseError:
+                return {"ev": "recv", "kind": "err"}
+            except Exception as exc:  # noqa: BLE001
+                return {"ev": "recv", "kind": "crash:" + type(exc).__name__}
+            idx = next((i + 1 for i, p in enumerate(packets) if pkt == p), 0)
+            return {"ev": "recv", "kind": "pkt", "id": idx, "ok": idx > 0}
+
+        if flavour == "blocking":
+            a.setblocking(True)
+            client = UDPNetworkClient(a, protocol)
+            try:
+                for i, p in enumerate(packets):
+                    client.send_packet(p)
+                    got = peer_recv()
+                    events.append({"ev": "send", "id": i + 1, "n": len(got), "ok": got[:1] == [protocol.make_datagram(p)]})
+                    b.send(protocol.make_datagram(p))
+                    events.append(outcome(lambda: client.recv_packet(timeout=2)))
+            finally:
+                client.close()
+        else:
+
+            async def main() -> None:
+                from easynetwork.lowlevel.api_async.backend._asyncio.backend import AsyncIOBackend
+
+                backend = AsyncIOBackend()
+                a.setblocking(False)
+                client = AsyncUDPNetworkClient(a, protocol, backend=backend)
+                await client.wait_connected()
+                try:
+                    for i, p in enumerate(packets):
+                        await client.send_packet(p)
+                        await asyncio.sleep(0)
+                        got = peer_recv()
+                        events.append({"ev": "send", "id": i + 1, "n": len(got), "ok": got[:1] == [protocol.make_datagram(p)]})
+                        b.send(protocol.make_datagram(p))
+                        try:
+                            with backend.timeout(2):
+                                pkt = await client.recv_packet()
+                            events.append(outcome(lambda: pkt))
+                        except Exception as exc:  # noqa: BLE001
+                            events.append(outcome(lambda: (_ for _ in ()).throw(exc)))
+                finally:
+                    await client.aclose()
+
+            asyncio.run(main())
+    except OSError as exc:
+        events.append({"ev": "crash:" + type(exc).__name__})
+    finally:
+        a.close()
+        b.close()
+    return {"events": traces.uniform(events, EVD), "meta": f"{'UDPNetworkClient' if flavour == 'blocking' else 'AsyncUDPNetworkClient'} StringLineSerializer {family} {'EMPTY datagram' if size == 0 else f'datagram of {size} bytes'} between two small ones"}
+
+
 def _fix_ids(t: dict[str, Any]) -> None:
     """Equal packets may occur twice in a scenario: attribute each delivery to the oldest matching packet not delivered yet."""
     for e in t["events"]:
@@ -262,8 +444,9 @@ def run(chk: Check) -> None:
     rng = random.Random(chk.seed)
     chk.rule = (
         "scenarios = (serializer entry, 1-4 generated packets, seeded interleaving of sends with malformed datagrams produced by mutation and confirmed "
-        "to be rejected by the one-shot parser, random receive moments) x {blocking endpoint, asynchronous endpoint, UDP client over loopback}; distinct = "
-        "distinct (entry, seed, target)"
+        "to be rejected by the one-shot parser, random receive moments) x {blocking endpoint, asynchronous endpoint, UDP client over loopback, asynchronous UDP "
+        "client over loopback on the real asyncio transport with socket errors reported between queued datagrams}; plus datagrams of the maximum size of the "
+        "address family (IPv4 65507, IPv6 65527) and neighbours, and the empty datagram, through both UDP clients; distinct = distinct (entry, seed, target)"
     )
     if not _model(chk):
         return
@@ -277,6 +460,16 @@ def run(chk: Check) -> None:
             rec.append(vloop.run(lambda: _scenario_async(e, seed)))
         for i in range(2 if quick else 15):
             rec.append(scenario_udp(e, chk.seed + 77 + i))
+        for i in range(3 if quick else 20):
+            seed = chk.seed + 177 + i
+            rec.append(vloop.run(lambda: _scenario_async_udp(e, seed)))
+    nbig = 0
+    for family, sizes in (("ipv4", [0, 65506, 65507]), ("ipv6", [0, 65507, 65508, 65526, 65527])):
+        for flavour in ("blocking", "async"):
+            for size in sizes:
+                rec.append(scenario_big(family, flavour, size))
+                nbig += 1
+    chk.extra["maximum_size_datagrams"] = nbig
     for t in rec:
         _fix_ids(t)
     slim = [{"events": t["events"]} for t in rec]
@@ -292,7 +485,7 @@ def run(chk: Check) -> None:
         t = rec[idx]
         failing = t["events"][pos - 1] if 0 < pos <= len(t["events"]) else None
         chk.violation(
-            {"kind": "trace", "spec": "Datagram", "target": t["meta"].split()[0], "event": (failing or {}).get("ev", "?")},
+            {"kind": "trace", "spec": "Datagram", "target": t["meta"].split()[0], "event": (failing or {}).get("ev", "?"), "what": "empty_datagram" if "EMPTY datagram" in t["meta"] else "other"},
             f"datagram: not a behaviour of Datagram (event #{pos}: {failing}) -- {t['meta']}",
             {"kind": "datagram_trace", "meta": t["meta"], "events": t["events"]},
         )
